@@ -323,6 +323,8 @@ def cuts_shard(rec, t0):
             whole = mido.parse_all(list(data))
             n = len(data)
             for c1, c2 in itertools.combinations_with_replacement(range(0, n + 1), 2):
+                if rec.reduced and (c1 + 3 * c2) % 9:
+                    continue
                 bad = False
                 for target in ('parser', 'queue'):
                     p = mido.Parser() if target == 'parser' else ParserQueue()
@@ -392,7 +394,23 @@ def volume_case(n, chunk, target):
     return {'data': data, 'ops': ops, 'target': target}
 
 
+def huge_cases():
+    # more than 2**16 messages pending before the first retrieval; one sysex longer than 2**16 bytes fed in pieces
+    data = []
+    for i in range(70000):
+        data += [0xD0 | (i % 16), i % 128]
+    yield {'data': data, 'ops': [['feed', 50000, 'bytes'], ['pending'], ['feed', 90000, 'list'], ['pending'], ['get']],
+           'target': 'parser'}
+    yield {'data': data, 'ops': [['feed', 140000, 'bytes'], ['iter_one'], ['pending']], 'target': 'queue'}
+    sx = [0x91, 1, 2, 0xF0] + [(i * 3) % 128 for i in range(70000)] + [0xF7, 0x81, 3, 4]
+    yield {'data': sx, 'ops': [['feed', 30000, 'bytes'], ['get'], ['feed', 30000, 'bytearray'], ['pending'],
+                               ['feed', 9000, 'list'], ['feed', 2000, 'bytes']], 'target': 'parser'}
+    yield {'data': sx, 'ops': [['feed', 66000, 'bytes'], ['feed', 1, 'list'], ['pending']], 'target': 'queue'}
+
+
 def main(ctx):
+    for case in huge_cases():
+        ctx.check(case, sample=False, classes=('volume',))
     for target in ('parser', 'queue'):
         ctx.check(volume_case(6000, 4093, target), sample=False, classes=('volume',))
     ctx.pmap('sched_shard', [0, 1, 2])
